@@ -66,5 +66,5 @@ def case_term(cfg: Dict, init: List[Dict], ops: List[Tuple], rng=None, checkpoin
     return term, states, err
 
 
-CASE_TYPE = "mgr_case"
-CHECKER = "check_mgr"
+CASE_TYPE = "mgr_case POW"
+CHECKER = "check_mgr POW"
